@@ -95,7 +95,10 @@ function stringsFor(ctx) {
     for (let si = 0; si < SUCC.length; si++) {
       const idx = k++
       if (idx % ctx.nshards !== ctx.shard) continue
-      out.push({ s: String.fromCodePoint(c) + SUCC[si], c, si, k: (Math.imul(c, 31) + si * 7 + (c >>> 4)) >>> 0 }) // k selects the spelling: varies with the code point and the successor
+      const kk = (Math.imul(c, 31) + si * 7 + (c >>> 4)) >>> 0 // kk selects the spelling: varies with the code point and the successor
+      // ASCII code points (where every special case of the parser lives) are spelt in all four ways with every successor
+      if (c < 0x80) for (let m = 0; m < 4; m++) out.push({ s: String.fromCodePoint(c) + SUCC[si], c, si, k: (kk & ~3) + m })
+      else out.push({ s: String.fromCodePoint(c) + SUCC[si], c, si, k: kk })
     }
   }
   return out
